@@ -706,7 +706,7 @@ def extra_checks(ctx):                  # noqa: F811  (extends the definition ab
 # ======================================================================================================================
 # BEGIN parseTie: translated `pdb2sql.__init__` / `pdb2sql.__call__` (Gen/ParseLoop.lean) against the real code
 # ======================================================================================================================
-GEN_UNITS = GEN_UNITS + ['parse_runtime', 'parse_read_pdb', 'parse_create_table', 'parse_init', 'parse_call']
+GEN_UNITS = GEN_UNITS + ['parse_runtime', 'parse_read_pdb', 'parse_create_table', 'parse_init', 'parse_call', 'fx_data2pdb', 'fx_sql2pdb']      # Props/C15K genp_call_closed uses fxTie's translated sql2pdb
 EXTRA_TARGETS = list(globals().get('EXTRA_TARGETS', [])) + ['PdbVerif.Driver.MainA']     # the generated functions are run by the cluster-A driver
 
 
